@@ -39,7 +39,14 @@ def run(eng, rep, tier):
     ok = bool(gate) and (not first_rewrite or gate[0] < first_rewrite[0]) and not in_try
     if gate:
         gev = own[gate[0]]
-        on_str = any("isinstance(python_regex, str)" in f[0] for f in gev.facts)
+        from .flow import resolved_facts
+
+        def _is_str_test(e):
+            return isinstance(e, ast.Call) and getattr(e.func, "id", None) == "isinstance" and len(e.args) == 2 and \
+                isinstance(e.args[0], ast.Name) and e.args[0].id == "python_regex" and \
+                "str" in {getattr(t_, "id", None) for t_ in (e.args[1].elts if isinstance(e.args[1], ast.Tuple) else [e.args[1]])}
+        # the gate lies on the path on which the argument IS a str (any spelling of the test, also through a flag)
+        on_str = any(_is_str_test(e) and pol for e, pol in resolved_facts([fi.node], gev.facts))
         arg_ok = bool(gev.args) and P("python_regex") in gev.args[0].alias
         ok = ok and on_str and arg_ok
     ob.decide("MUSTPASS", "C07.1", fi, "re.compile-gate", ok,
